@@ -25,7 +25,7 @@ RULE = ("full grids: rotation algorithm in {cube4D, randomQ} with n_b in {1,4,5,
 ASSUMPTIONS = ["composition is checked against the sub-grids' own getters; their geometric truth is C03-C06/C15",
                "n_b in {2,3} (estimated rotation cells) is outside the quantifier and skipped", "products compared at rtol 1e-12; symmetry at 1e-8 relative (mirror faces of the rotation grid are computed separately and agree to ~1e-10)"]
 EXHAUSTIVE = {"quick": False, "thorough": False}
-MIN_NONTRIVIAL = {"quick": 12, "thorough": 120}
+MIN_NONTRIVIAL = {"quick": 12, "thorough": 300}
 SHARD_TIMEOUT = {"quick": 1200, "thorough": 7200}
 
 
@@ -234,7 +234,7 @@ def drive(FullGrid, b, o, t, f, cart, order_seed):
 
 
 def shards(tier, seed):
-    n, per = (14, 2) if tier == "quick" else (32, 8)
+    n, per = (14, 2) if tier == "quick" else (32, 20)
     return [{"rseed": seed * 1000 + i, "count": per} for i in range(n)] + \
            [{"kind": "workflow_files", "rseed": seed * 1000 + 900 + i, "count": 2 if tier == "quick" else 6} for i in range(2)]
 
